@@ -91,12 +91,69 @@ func expandConds(cs []Cond) []Cond {
 				}
 			}
 		}
+		// a short-circuit `a && b` (or `a || b`) that was materialised as a value (switch case, assignment) is a phi of
+		// bool constants and the right operand: its true (resp. false) outcome fixes every operand
+		if ph, ok := c.V.(*ssa.Phi); ok {
+			if ops, ok := Conjuncts(ph, c.Pol); ok {
+				out = append(out, c)
+				for _, o := range ops {
+					o.If = c.If
+					add(o)
+				}
+				return
+			}
+		}
 		out = append(out, c)
 	}
 	for _, c := range cs {
 		add(c)
 	}
 	return out
+}
+
+// Conjuncts: if phi is the materialised value of a short-circuit conjunction (pol=true: `a && b && …` known true) or
+// disjunction (pol=false: `a || b || …` known false), returns the operand conditions that then hold.
+func Conjuncts(ph *ssa.Phi, pol bool) ([]Cond, bool) {
+	if b, ok := ph.Type().Underlying().(*types.Basic); !ok || b.Kind() != types.Bool {
+		return nil, false
+	}
+	var out []Cond
+	nonConst := 0
+	for i, e := range ph.Edges {
+		k, isK := e.(*ssa.Const)
+		if !isK {
+			nonConst++
+			if inner, isPhi := e.(*ssa.Phi); isPhi {
+				sub, ok := Conjuncts(inner, pol)
+				if !ok {
+					return nil, false
+				}
+				out = append(out, sub...)
+			} else {
+				out = append(out, Cond{V: e, Pol: pol})
+			}
+			continue
+		}
+		if k.Value == nil || k.Value.Kind() != constant.Bool || constant.BoolVal(k.Value) == pol {
+			return nil, false // a constant edge with the asked outcome: the outcome does not fix the operands
+		}
+		// the edge comes from the block that evaluated an earlier operand and short-circuited
+		pred := ph.Block().Preds[i]
+		if len(pred.Instrs) == 0 {
+			return nil, false
+		}
+		iff, ok := pred.Instrs[len(pred.Instrs)-1].(*ssa.If)
+		if !ok {
+			return nil, false
+		}
+		// the operand had the value that leads here; on the asked outcome it had the other one
+		toHere := pred.Succs[0] == ph.Block()
+		out = append(out, Cond{V: iff.Cond, Pol: !toHere})
+	}
+	if nonConst != 1 {
+		return nil, false
+	}
+	return out, true
 }
 
 // EdgeFilter decides whether CFG edge from->to (succ index idx) may be traversed.
